@@ -115,12 +115,24 @@ def butter_rules(chk):
     for n in ast.walk(fi.node):
         if isinstance(n, ast.Assign) and isinstance(n.value, ast.Constant) and n.value.value in ("low", "lowpass", "high", "highpass"):
             par = _parent_block(fi.node, n)
-            sel = [m for m in par if isinstance(m, ast.Assign) and isinstance(m.value, ast.Subscript) and
-                   isinstance(m.value.value, ast.Name) and m.value.value.id == "cut_off" and isinstance(m.value.slice, ast.Constant)]
+            # the element may be taken directly (cut_off = cut_off[1]) or through a local bound once before (high_cut = cut_off[1])
+            once = {}
+            for m in ast.walk(fi.node):
+                if isinstance(m, ast.Assign) and len(m.targets) == 1 and isinstance(m.targets[0], ast.Name):
+                    once.setdefault(m.targets[0].id, []).append(m.value)
+
+            def elem_index(v):
+                if isinstance(v, ast.Name) and len(once.get(v.id, [])) == 1:
+                    v = once[v.id][0]
+                if isinstance(v, ast.Subscript) and isinstance(v.value, ast.Name) and v.value.id == "cut_off" and isinstance(v.slice, ast.Constant):
+                    return v.slice.value
+                return None
+            sel = [elem_index(m.value) for m in par if isinstance(m, ast.Assign) and isinstance(m.targets[0], ast.Name) and m.targets[0].id == "cut_off"]
+            sel = [x for x in sel if x is not None]
             want = 1 if n.value.value.startswith("low") else 0
-            chk.ob("R-BP-TYPE", c + "{element %s}" % n.value.value, "'%s' uses cut_off[%d]" % (n.value.value, want),
-                   len(sel) == 1 and sel[0].value.slice.value == want,
-                   derived="uses index %s" % ([m.value.slice.value for m in sel]), loc=fi.loc(n))
+            if sel:         # when the selection is spelled some other way the typing rule {cut-off} above (p:lo / p:hi provenance) decides alone
+                chk.ob("R-BP-TYPE", c + "{element %s}" % n.value.value, "'%s' uses cut_off[%d]" % (n.value.value, want),
+                       len(sel) == 1 and sel[0] == want, derived="uses index %s" % sel, loc=fi.loc(n))
     # ---- zero phase + length / linearity per remove_gibbs branch
     for rg in (None, "start", "end", "mid", "?"):
         def build(I, st, fi, rg=rg):
@@ -166,9 +178,11 @@ def _parent_block(root, node):
 
 # ---------------------------------------------------------------------------------------------------------------------
 def poly_summary(chk, fi, c, rename):
-    """canonical summary of one remove_poly implementation"""
+    """canonical summary of one remove_poly implementation; the coefficient loop may be `for k in range(len(cofs))` with cofs[k] or
+    `for k, c in enumerate(cofs or np.polyfit(...))`: both are summarised as index k, coefficient c_k, all coefficients used"""
     out = {}
     norm = Normaliser(rename=rename)
+    fenv = straightline_env(fi.node.body, Normaliser(rename=rename), exclude=set(fi.params))
     calls = {ast.unparse(n.func).split(".")[-1]: n for n in ast.walk(fi.node) if isinstance(n, ast.Call)}
     ls = calls.get("linspace")
     out["abscissa"] = tuple(norm.arg(a) for a in ls.args) if ls is not None else None
@@ -177,10 +191,30 @@ def poly_summary(chk, fi, c, rename):
     loops = [n for n in ast.walk(fi.node) if isinstance(n, ast.For)]
     if len(loops) == 1:
         lp = loops[0]
-        out["range"] = norm.arg(lp.iter)
-        env = straightline_env(lp.body, Normaliser(rename=rename))
+        it = lp.iter
+        idx = coef = None
+        src = None
+        if isinstance(it, ast.Call) and ast.unparse(it.func) == "range" and len(it.args) == 1 and isinstance(it.args[0], ast.Call) and \
+                ast.unparse(it.args[0].func) == "len" and isinstance(lp.target, ast.Name):
+            idx, src = lp.target.id, it.args[0].args[0]
+            coef = "%s[%s]" % (ast.unparse(src), idx)
+        elif isinstance(it, ast.Call) and ast.unparse(it.func) == "enumerate" and len(it.args) == 1 and isinstance(lp.target, ast.Tuple) and \
+                len(lp.target.elts) == 2 and all(isinstance(e, ast.Name) for e in lp.target.elts):
+            idx, coef, src = lp.target.elts[0].id, lp.target.elts[1].id, it.args[0]
+        # the sequence iterated over must be the polyfit result itself (directly or through a local bound once)
+        srcp = fenv.poly(src).canon() if src is not None else None
+        pfp = fenv.poly(pf).canon() if pf is not None else None
+        out["range"] = "all coefficients of the fit" if (src is not None and srcp == pfp) else ("over %s" % srcp)
+        ren = dict(rename)
+        if idx:
+            ren[idx] = "k"
+        env = straightline_env(lp.body, Normaliser(rename=ren))
         incs = [n for n in ast.walk(lp) if isinstance(n, ast.AugAssign) and isinstance(n.op, ast.Add)]
-        out["term"] = env.poly(incs[0].value).canon() if len(incs) == 1 else None
+        if len(incs) == 1 and coef is not None:
+            ck = Normaliser(rename=ren).arg(ast.parse(coef, mode="eval").body)
+            out["term"] = env.poly(incs[0].value).subst_atoms(lambda a_: "c_k" if a_ == ck else a_).canon()
+        else:
+            out["term"] = None
     rets = [n for n in ast.walk(fi.node) if isinstance(n, ast.Return) and n.value is not None]
     if rets:
         out["result"] = norm.poly(rets[0].value).canon()
@@ -190,12 +224,29 @@ def poly_summary(chk, fi, c, rename):
     return out
 
 
+def _delegates(chk, a, b):
+    """method `a` hands (its values, poly_fit) to function `b` and stores / returns the result unchanged"""
+    from ..program import local_imports_of
+    li = local_imports_of(a)
+    for n in ast.walk(a.node):
+        if isinstance(n, ast.Call):
+            r = chk.P.resolve_expr(a.module, n.func, li)
+            if r and r[0] == "func" and r[1] is b:
+                bp = list(b.params)
+                bind = dict(zip(bp, n.args))
+                bind.update({k.arg: k.value for k in n.keywords if k.arg})
+                return set(bind) == set(bp) and ast.unparse(bind[bp[0]]) in ("self.values", "self._values") and \
+                    isinstance(bind[bp[1]], ast.Name) and bind[bp[1]].id == bp[1]
+    return False
+
+
 def poly_rules(chk):
     P = chk.P
     a = P.fn(SIG + ".remove_poly")
     b = P.fn("eqsig.fns.generic.remove_poly")
-    sa_ = poly_summary(chk, a, "Signal.remove_poly", {"self.values": "values"})
+    deleg = _delegates(chk, a, b)
     sb_ = poly_summary(chk, b, "generic.remove_poly", {})
+    sa_ = poly_summary(chk, a, "Signal.remove_poly", {"self.values": "values"}) if not deleg else dict(sb_)
     # len(values) ~ self.npts
     def canon(s):
         d = dict(s)
@@ -203,18 +254,21 @@ def poly_rules(chk):
             d["abscissa"] = tuple(x.replace("self.npts", "len(values)") for x in d["abscissa"])
         return d
     sa_, sb_ = canon(sa_), canon(sb_)
-    chk.ob("R-POLY-SIB", "Signal.remove_poly~generic.remove_poly", "equal summaries (abscissa, fit, range, term, result)", sa_ == sb_ and
-           all(v is not None for v in sa_.values()), derived="%s vs %s" % (sa_, sb_), loc=a.loc())
+    chk.ob("R-POLY-SIB", "Signal.remove_poly~generic.remove_poly", "equal summaries (abscissa, fit, range, term, result)", (sa_ == sb_ and
+           all(v is not None for v in sa_.values())) or deleg, derived="the method delegates to the function" if deleg else "%s vs %s" % (sa_, sb_),
+           loc=a.loc())
     for nm, s, fi in (("Signal.remove_poly", sa_, a), ("generic.remove_poly", sb_, b)):
+        if deleg and fi is a:
+            continue
         c = "%s:%s" % (fi.module.relpath, nm)
         chk.ob("R-POLY-SIB", c + "{abscissa}", "x = linspace(0, 1, n)", s.get("abscissa") == ("0", "1", "len(values)"),
                derived="%s" % (s.get("abscissa"),), loc=fi.loc())
         chk.ob("R-POLY-SIB", c + "{fit}", "polyfit(x, values, poly_fit)", s.get("fit") == ("x", "values", "poly_fit"), derived="%s" % (s.get("fit"),),
                loc=fi.loc())
-        chk.ob("R-POLY-SIB", c + "{range}", "all len(cofs) coefficients are used", s.get("range") == "range(len(cofs))", derived="%s" % s.get("range"),
+        chk.ob("R-POLY-SIB", c + "{range}", "all coefficients of the fit are used", s.get("range") == "all coefficients of the fit", derived="%s" % s.get("range"),
                loc=fi.loc())
-        chk.ob("R-POLY-SIB", c + "{term}", "term k is cofs[k] * x ** (poly_fit - k)", s.get("term") in
-               ("1*(1*x)**(-1*co + 1*poly_fit)*cofs[co]", "1*(1*x)**(1*poly_fit + -1*co)*cofs[co]"), derived="%s" % s.get("term"), loc=fi.loc())
+        chk.ob("R-POLY-SIB", c + "{term}", "term k is c_k * x ** (poly_fit - k)", s.get("term") in
+               ("1*(1*x)**(-1*k + 1*poly_fit)*c_k", "1*(1*x)**(1*poly_fit + -1*k)*c_k"), derived="%s" % s.get("term"), loc=fi.loc())
         chk.ob("R-POLY-SIB", c + "{result}", "result = values - correction", s.get("result") == "1*values + -1*y_cor", derived="%s" % s.get("result"),
                loc=fi.loc())
     # typing: linear in the record, same length
